@@ -33,7 +33,7 @@ BUDGET = {'quick': 50.0, 'thorough': 200.0}
 
 PAIRINGS = (('sync', 'sync'), ('sync', 'async'), ('async', 'sync'), ('async', 'async'))
 ARGS = ('p0', 'p1', 'p2', 'n1', 'n2', 'pd', 'pl', 'pn')
-BEHAVIOURS = ('sub', 'typed', 'unreg', 'boom')
+BEHAVIOURS = ('sub', 'typed', 'unreg', 'boom', 'boomt', 'boomk')
 
 
 def setup():
@@ -118,7 +118,15 @@ class _World:
             log.append(['boom', a, b])
             raise ValueError('boom-marker')
 
-        self.fns = {'sub': sub, 'typed': typed, 'unreg': unreg, 'boom': boom}
+        def boomt(a=0, b=0):
+            log.append(['boomt', a, b])
+            raise TypeError('boom-marker')          # an arbitrary exception that merely LOOKS like a binding failure
+
+        def boomk(a=0, b=0):
+            log.append(['boomk', a, b])
+            raise KeyError('boom-marker')
+
+        self.fns = {'sub': sub, 'typed': typed, 'unreg': unreg, 'boom': boom, 'boomt': boomt, 'boomk': boomk}
         d = (pjrpc.server.AsyncDispatcher if dk == 'async' else pjrpc.server.Dispatcher)(**wire.kwargs())
         for name, fn in self.fns.items():
             d.add(fn, name=name)
@@ -205,11 +213,14 @@ def _expected(world, beh, args, kwargs):
         v = fn(*args, **kwargs)
         out = ('value', normalise(v))
     except TypeError:
-        out = ('error', pjrpc.exc.InvalidParamsError, -32602, 'Invalid params', None, 'unbound')
+        if len(world.log) > n:      # raised by the BODY (it ran): an arbitrary exception, not a binding failure
+            out = ('error', pjrpc.exc.ServerError, -32000, 'Server error', ('absent',))
+        else:
+            out = ('error', pjrpc.exc.InvalidParamsError, -32602, 'Invalid params', None, 'unbound')
     except pjrpc.exc.JsonRpcError as e:
         cls = _ref_classes().get(e.code, pjrpc.exc.JsonRpcError)
         out = ('error', cls, e.code, e.message, ('data', normalise(e.data)))
-    except ValueError:
+    except (ValueError, KeyError):
         out = ('error', pjrpc.exc.ServerError, -32000, 'Server error', ('absent',))
     del world.log[n:]          # the direct reference call is not a server-side execution
     return out
